@@ -5,7 +5,7 @@ Import ListNotations.
 Local Open Scope N_scope.
 
 Notation ty := (Layout.ty scalar).
-Notation check := (Layout.check scalar ssize sbool).
+Notation check := (Layout.check scalar ssize sbool array_min).
 Notation spec_total := (Layout.spec_total scalar ssize sbool).
 Notation spec_fields := (Layout.spec_fields scalar ssize sbool).
 Notation spec_sa := (Layout.spec_sa scalar ssize sbool).
@@ -18,6 +18,10 @@ Theorem C19_scalar_sizes :
    ("Float32"%string, Some 4, false); ("Float64"%string, Some 8, false)].
 Proof. vm_compute. reflexivity. Qed.
 
+(* the element stride of every array with at least two elements takes part in the comparison *)
+Theorem C19_array_stride_recorded : array_min = 1.
+Proof. reflexivity. Qed.
+
 (* ---- every type tree, any nesting depth ---- *)
 
 (* acceptance implies the same total size and the same offset for every field, recursively *)
@@ -25,14 +29,14 @@ Theorem C19_check_sound : forall t : ty,
   check t = Accept ->
   exists z, spec_total Hlsl t = Some z /\ spec_total Metal t = Some z /\
             spec_fields Hlsl t 0 = spec_fields Metal t 0.
-Proof. exact (check_sound scalar ssize sbool). Qed.
+Proof. exact (check_sound scalar ssize sbool array_min C19_array_stride_recorded). Qed.
 
 (* a size rejection reports the true sizes and alignments *)
 Theorem C19_check_reports_truth : forall (t : ty) hs ha ms ma,
   check t = Mismatch hs ha ms ma ->
   spec_total Hlsl t = Some hs /\ spec_total Metal t = Some ms /\ hs <> ms /\
   option_map snd (spec_sa Hlsl t) = Some ha /\ option_map snd (spec_sa Metal t) = Some ma.
-Proof. exact (check_reports_truth scalar ssize sbool). Qed.
+Proof. exact (check_reports_truth scalar ssize sbool array_min). Qed.
 
 (* ---- non-vacuity and the two witnesses that the unrepaired checker accepted ---- *)
 Definition f1 := TScalar ST_Float32.
@@ -53,5 +57,6 @@ Example C19_witness_same_size_other_offsets :   (* {float; float2; double}: 24 b
 Proof. vm_compute. reflexivity. Qed.
 
 Print Assumptions C19_scalar_sizes.
+Print Assumptions C19_array_stride_recorded.
 Print Assumptions C19_check_sound.
 Print Assumptions C19_check_reports_truth.
